@@ -263,7 +263,11 @@ func streamDisp(c *Ctx) {
 				cts = append(cts, t, t+";charset=utf-8", t+"; charset=utf-8", t+" ", " "+t, strings.ToUpper(t), t[:len(t)-1], t+"x", strings.Replace(t, "/", "//", 1), t+" ;", strings.Replace(t, "+", " ", 1))
 			}
 			cts = append(cts, "", "application/", "application/connect+", "application/grpc+", "application/grpc-web+", "text/plain", "application/connect", "application/grpc-web-text", "application/octet-stream", "application/x-protobuf", "*/*")
-			for i := 0; i < 6; i++ {
+			nRandom := 6
+			if c.Thorough() {
+				nRandom = 80
+			}
+			for i := 0; i < nRandom; i++ {
 				cts = append(cts, "application/"+strings.Map(func(r rune) rune {
 					if r < 0x21 || r > 0x7e {
 						return 'q'
